@@ -31,7 +31,9 @@ type totalEvent struct {
 var versSchemes = []string{"alpine", "cargo", "deb", "gem", "generic", "golang", "maven", "npm", "nuget", "pypi", "rpm"}
 var versProbeText = map[string]string{"alpine": "1.0", "cargo": "1.0.0", "deb": "1.0", "gem": "1.0.0", "generic": "1.0.0", "golang": "v1.0.0",
 	"maven": "1.0", "npm": "1.0.0", "nuget": "1.0.0", "pypi": "1.0", "rpm": "1.0"}
-var witnessTexts = []string{"1.0.0", "1.0", "2.0.0", "1.2.3", "v1.0.0", "0.1.0"}
+// witnesses: ordinary versions plus a very low and a very high one, so that whatever bounds an accepted range
+// holds, some witness passes its first constraints and reaches the later ones
+var witnessTexts = []string{"1.0.0", "1.0", "2.0.0", "1.2.3", "v1.0.0", "0.1.0", "0", "0.0.0", "99999.0.0", "99999", "v99999.0.0", "1.0.0-alpha"}
 
 func classify(nilv bool, err error, pan string) int {
 	switch {
